@@ -176,6 +176,11 @@ func Do(addr string, rq RawReq) *RawResp {
 	}
 	d0 := time.Now()
 	c, err := net.DialTimeout("tcp", addr, 10*time.Second)
+	for i := 0; err != nil && strings.Contains(err.Error(), "cannot assign requested address") && i < 300; i++ {
+		RealSleep(int64(200 * time.Millisecond)) // ephemeral ports exhausted: infrastructure back-off in real time
+		d0 = time.Now()
+		c, err = net.DialTimeout("tcp", addr, 10*time.Second)
+	}
 	if IsSim && time.Since(d0) != 0 {
 		FlagAnomaly("dial took virtual time")
 	}
@@ -210,9 +215,18 @@ func Do(addr string, rq RawReq) *RawResp {
 	if err != nil {
 		res.Err = err.Error()
 	}
-	if res.Err == "client-abort-download" {
+	switch {
+	case res.Err == "client-abort-download":
 		rst(c)
-	} else {
+	case IsSim && res.Err == "" && res.Complete:
+		// After a complete response the connection is dropped with RST so that no TIME_WAIT socket is left
+		// behind (hundreds of thousands of exchanges would otherwise exhaust the ephemeral port range) - but
+		// only once the server side is quiescent, so that the reset cannot cancel anything still in progress.
+		dur := time.Since(start)
+		Settle()
+		start = time.Now().Add(-dur) // the settle step is not part of the exchange
+		rst(c)
+	default:
 		c.Close()
 	}
 	res.BodyLen = len(res.Body)
